@@ -120,7 +120,12 @@ def _mul_body(a, b, ctx):
      "merge(a,b) vs sum of embeddings; refusal iff extents do not intersect", examples=(800, 3000))
 def merge(case, ctx):
     a, b = case
+    if (a["offset"][0] + b["offset"][1]) % 5 == 0:
+        # identical footprint: same shape and offset (two contributions on the same grid)
+        b = {"data": np.resize(b["data"], a["data"].shape) + 0.5, "offset": list(a["offset"])}
+        ctx.tag("identical_footprint")
     fa, fb = mk(a), mk(b)
+    da0, db0 = fa.data.copy(), fb.data.copy()
     sa, sb = a["data"].shape, b["data"].shape
     rel = relation(sa, a["offset"], sb, b["offset"])
     ctx.tag("rel:" + rel)
@@ -140,13 +145,26 @@ def merge(case, ctx):
     if not close(render(res), exp):
         raise Violation("C06.merge.value", f"merge differs from sum of embeddings (shapes {sa},{sb} offsets "
                                            f"{a['offset']},{b['offset']})")
+    if not (np.array_equal(fa.data, da0) and np.array_equal(fb.data, db0)):
+        raise Violation("C06.merge.operand_mutated", f"merge changed one of its operands (shapes {sa},{sb} offsets "
+                                                     f"{a['offset']},{b['offset']})")
+    with lentil_call("C06.merge", "merge (second time)"):
+        res2 = lfield.merge(fa, fb, enforce_overlap=False)
+    if not close(render(res2), exp):
+        raise Violation("C06.merge.repeat", "merging the same two fields a second time gives a different result")
 
 
 @hyp("C06", "reduce", lambda tier: st.lists(field_desc(hi=5, off=8, min_size=2), min_size=1, max_size=6),
      "reduce(fields): results pairwise disjoint in extent, same total as the sum of embeddings; boundary(fields) "
      "= bounding box of the union", examples=(800, 3000))
 def reduce_(case, ctx):
+    if len(case) >= 2 and (case[0]["offset"][0] + len(case)) % 4 == 0:
+        # two contributions with an identical footprint
+        case = list(case)
+        case[1] = {"data": np.resize(case[1]["data"], case[0]["data"].shape) - 0.25, "offset": list(case[0]["offset"])}
+        ctx.tag("identical_footprint")
     fields = [mk(f) for f in case]
+    snaps = [f.data.copy() for f in fields]
     sets = [fm.coordset(f["data"].shape, f["offset"]) for f in case]
     exp = sum(fm.embed(f["data"], f["offset"]) for f in case)
     n_overlap = sum(1 for i, j in itertools.combinations(range(len(case)), 2) if sets[i] & sets[j])
@@ -170,6 +188,12 @@ def reduce_(case, ctx):
     got = sum(render(f) for f in out)
     if not close(got, exp):
         raise Violation("C06.reduce.total", "sum of reduced fields differs from sum of embeddings")
+    if any(not np.array_equal(f.data, s0) for f, s0 in zip(fields, snaps)):
+        raise Violation("C06.reduce.operand_mutated", "reduce changed one of the fields it was given")
+    with lentil_call("C06.reduce", "field.reduce (second time)"):
+        out_again = lfield.reduce(fields)
+    if not close(sum(render(f) for f in out_again), exp):
+        raise Violation("C06.reduce.repeat", "reducing the same fields a second time gives a different total")
     for i, j in itertools.combinations(range(len(out)), 2):
         ei = fm.extent(out[i].data.shape, out[i].offset)
         ej = fm.extent(out[j].data.shape, out[j].offset)
@@ -361,3 +385,69 @@ def extent_enum(case, ctx):
         ep = lext.array_extent(sa, oa, parent_shape=(9, 8))
     if tuple(ep) != (ea[0] + 4, ea[1] + 4, ea[2] + 4, ea[3] + 4):
         raise Violation("C06.extent.parent", f"parent-relative extent {ep}")
+
+
+# --- large fields: sizes at and around 64 / 128 / 256 ---------------------------------------------------
+
+@st.composite
+def large_field_case(draw, tier):
+    pool = gen.BIG + [255, 256, 257]
+    fs = (draw(st.sampled_from(pool + [3, 10])), draw(st.sampled_from(pool + [5])))
+    ts = (draw(st.sampled_from(pool + [300])), draw(st.sampled_from(pool + [12])))
+    rel = draw(st.sampled_from(["inside", "clipped", "edge", "outside"]))
+    return {"fs": list(fs), "ts": list(ts), "rel": rel, "seed": draw(st.integers(0, 2**31 - 1)),
+            "u": [draw(gen.finite(-1, 1)), draw(gen.finite(-1, 1))], "intensity": draw(st.booleans()),
+            "weight": draw(st.sampled_from([1, -2.5, 0.125]))}
+
+
+@hyp("C06", "large", lambda tier: large_field_case(tier),
+     "insert / product / merge with fields and targets of 63..300 samples per axis against direct index arithmetic",
+     examples=(40, 150), budget_s=(120, 600))
+def large(case, ctx):
+    fs, ts = tuple(case["fs"]), tuple(case["ts"])
+    rng = np.random.default_rng(case["seed"])
+    # offset chosen so that the field is inside / clipped / touching by one sample / wholly outside
+    span = [(ts[i] + fs[i]) // 2 for i in range(2)]
+    if case["rel"] == "inside":
+        off = [int(case["u"][i] * max((ts[i] - fs[i]) // 2 - 1, 0)) for i in range(2)]
+    elif case["rel"] == "clipped":
+        off = [int(case["u"][i] * span[i] * 0.8) for i in range(2)]
+    elif case["rel"] == "edge":
+        off = [int(np.sign(case["u"][i]) or 1) * (span[i] - (1 if case["u"][i] > 0 else 0)) if i == 0 else int(case["u"][i] * 3)
+               for i in range(2)]
+    else:
+        off = [int((np.sign(case["u"][i]) or 1) * (span[i] + 2 + abs(int(case["u"][i] * 9)))) if i == 0 else int(case["u"][i] * 5)
+               for i in range(2)]
+    data = rng.normal(size=fs) + 1j * rng.normal(size=fs)
+    ctx.tag("rel:" + case["rel"], f"max:{max(max(fs), max(ts)) // 64 * 64}+")
+    ctx.nontrivial_if(case["rel"] != "inside")
+    f = Field(data=data.copy(), offset=list(off))
+    out = rng.uniform(-1, 1, size=ts) if case["intensity"] else (rng.uniform(-1, 1, size=ts) + 1j * rng.uniform(-1, 1, size=ts))
+    before = out.copy()
+    exp = before.copy()
+    src = np.abs(data) ** 2 if case["intensity"] else data
+    rows = np.arange(fs[0]) + off[0] - fs[0] // 2 + ts[0] // 2
+    cols = np.arange(fs[1]) + off[1] - fs[1] // 2 + ts[1] // 2
+    okr, okc = (rows >= 0) & (rows < ts[0]), (cols >= 0) & (cols < ts[1])
+    if okr.any() and okc.any():
+        exp[np.ix_(rows[okr], cols[okc])] += case["weight"] * src[np.ix_(np.flatnonzero(okr), np.flatnonzero(okc))]
+    with lentil_call("C06.large.insert", f"insert(field {fs}@{off} -> {ts})"):
+        lfield.insert(f, out, intensity=case["intensity"], weight=case["weight"])
+    if np.max(np.abs(out - exp)) > 1e-12 * (np.max(np.abs(exp)) + 1):
+        raise Violation("C06.large.insert", f"insert(field {fs}@{off} -> {ts}) differs from the embedding restricted to the "
+                                            f"target ({case['rel']})")
+    # product with a second large field at the mirrored offset
+    g = Field(data=rng.normal(size=(ts[0] // 2 + 1, ts[1] // 2 + 1)) + 0j, offset=[-off[0] // 3, off[1] // 2])
+    with lentil_call("C06.large.mul", "Field * Field"):
+        pr = f * g
+    ca, cb = fm.coords(fs, off), fm.coords(g.data.shape, g.offset)
+    r0, r1, c0, c1 = max(ca[0], cb[0]), min(ca[1], cb[1]), max(ca[2], cb[2]), min(ca[3], cb[3])
+    if r1 <= r0 or c1 <= c0:
+        if pr.data.size != 0:
+            raise Violation("C06.large.mul", "product of non-overlapping large fields is not empty")
+    else:
+        want = data[r0 - ca[0]:r1 - ca[0], c0 - ca[2]:c1 - ca[2]] * g.data[r0 - cb[0]:r1 - cb[0], c0 - cb[2]:c1 - cb[2]]
+        pc = fm.coords(pr.data.shape, pr.offset)
+        if pc != (r0, r1, c0, c1) or np.max(np.abs(pr.data - want)) > 1e-12 * (np.max(np.abs(want)) + 1):
+            raise Violation("C06.large.mul", f"product of fields {fs}@{off} and {g.data.shape}@{g.offset} differs from the "
+                                             f"pointwise product on the common samples")
